@@ -43,20 +43,25 @@ def split_steps(path):
     d, b = os.path.split(path)
     sp = os.path.join(d, "steps_" + b)
     ap = os.path.join(d, "asteps_" + b)       # the words of the abandon / adopt protocol (AbandonTrace.tla)
-    n = na = 0
-    with open(path) as f, open(path + ".api", "w") as fa, open(sp, "w") as fs, open(ap, "w") as fb:
+    pp = os.path.join(d, "psteps_" + b)       # the words of the arena purge schedule (PurgeStepTrace.tla)
+    n = na = npp = 0
+    with open(path) as f, open(path + ".api", "w") as fa, open(sp, "w") as fs, open(ap, "w") as fb, open(pp, "w") as fp:
         for l in f:
             if l.startswith('{"e":"step"'):
                 fs.write(l); n += 1
             elif l.startswith('{"e":"astep"'):
                 fb.write(l); na += 1
+            elif l.startswith('{"e":"pstep"'):
+                fp.write(l); npp += 1
             else:
                 fa.write(l)
                 if l.startswith(('{"e":"ret"', '{"e":"cfg"', '{"e":"reset"', '{"e":"crash"', '{"e":"end"')):
-                    fs.write(l); fb.write(l)
+                    fs.write(l); fb.write(l); fp.write(l)
     os.replace(path + ".api", path)
     if na == 0:
         os.remove(ap)
+    if npp == 0:
+        os.remove(pp)
     return sp, n
 
 
@@ -143,7 +148,7 @@ def run_conc(prop, tier, seed, jobs_spec, own_guards, mc, builds=("rel", "dbg"),
     segcov = vlib.seg_pass(V, prop, [t[0] for t in traces], tag=prop + "conc")
     # the step events go to their own trace (StepTrace.tla), everything else to ApiTrace; long traces are split at reset lines so
     # that the TLC jobs stay balanced
-    pieces, spieces, apieces, nstep_events = [], [], [], 0
+    pieces, spieces, apieces, ppieces, nstep_events = [], [], [], [], 0
     for tr in traces:
         sp, ns = split_steps(tr[0])
         nstep_events += ns
@@ -152,6 +157,9 @@ def run_conc(prop, tier, seed, jobs_spec, own_guards, mc, builds=("rel", "dbg"),
         ap = os.path.join(os.path.dirname(tr[0]), "asteps_" + os.path.basename(tr[0]))
         if os.path.exists(ap):
             apieces += split_pieces(ap, tr, limit=20000)
+        pp = os.path.join(os.path.dirname(tr[0]), "psteps_" + os.path.basename(tr[0]))
+        if os.path.exists(pp):
+            ppieces += split_pieces(pp, tr, limit=20000)
         pieces += split_pieces(tr[0], tr)
     t0 = time.time()
     stres = vlib.parallel([(lambda p=p: vlib.tlc_tv(p, module="StepTrace", cfg="StepTrace.cfg", timeout=2400, xmx="3g")) for p, _ in spieces], nproc=12)
@@ -203,6 +211,32 @@ def run_conc(prop, tier, seed, jobs_spec, own_guards, mc, builds=("rel", "dbg"),
                 V.note("abandonment protocol guard (decisive for C09) failed: %s" % sig)
     if apieces:
         log("  TLC validated %d abandonment-trace pieces (%d atomic steps) in %.1fs" % (len(apieces), nab, time.time() - t0))
+    # the purge schedule of the arenas at the level of its atomic operations (decisive for C18)
+    t0 = time.time()
+    pures = vlib.parallel([(lambda p=p: vlib.tlc_tv(p, module="PurgeStepTrace", cfg="PurgeStepTrace.cfg", timeout=2400, xmx="3g")) for p, _ in ppieces], nproc=12)
+    npu = 0
+    for (p, tr), r in zip(ppieces, pures):
+        if r["status"] in ("error", "timeout"):
+            raise vlib.InfraError("TLC purge-step validation %s: %s" % (r["status"], r["out"][-3000:]))
+        with open(p) as f:
+            npu += sum(1 for l in f if l.startswith('{"e":"pstep"'))
+        seen = set()
+        fails = list(r["guardfails"])
+        if r["status"] == "rejected" and not fails:
+            fails = [("Unexplained", (r["consumed"] or 0) + 1, "no action explains this event")]
+        for name, line, detail in fails:
+            sig = "%s:pstep@%s" % (name, tr[3])
+            if sig in seen:
+                continue
+            seen.add(sig)
+            if prop == "C18":
+                keep = os.path.join(vlib.keepdir(prop), os.path.basename(p))
+                shutil.copyfile(p, keep)
+                V.violation(sig, "%s:%d" % (keep, line), "purge schedule guard %s failed (%s)" % (name, detail))
+            else:
+                V.note("purge schedule guard (decisive for C18) failed: %s" % sig)
+    if ppieces:
+        log("  TLC validated %d purge-step pieces (%d atomic steps) in %.1fs" % (len(ppieces), npu, time.time() - t0))
     t0 = time.time()
     tvres = vlib.parallel([(lambda p=p: vlib.tlc_tv(p, timeout=2400, xmx="3g")) for p, _ in pieces], nproc=12)
     log("  TLC validated %d trace pieces in %.1fs" % (len(pieces), time.time() - t0))
